@@ -928,8 +928,12 @@ func (k *kase) exec(op string) string {
 						if !after[e.FileName] {
 							n, _ := tableNo(e.FileName)
 							if covering[n] {
-								unmapped = true
-								k.failf("value-unmapped-under-loader", t.ver.ID(), "a Cleanup tick inside the loader of Load(%d) by reader %s closed (unmapped) table %d, which the Load is reading from", key, t.name, n)
+								// a covering table this Load has not opened yet may be closed (it is re-opened
+								// when the loop gets there); the one the value comes from must not be
+								if eqU32(decToks(cp), k.contents[n][key]) {
+									unmapped = true
+									k.failf("value-unmapped-under-loader", t.ver.ID(), "a Cleanup tick inside the loader of Load(%d) by reader %s closed (unmapped) table %d, which the Load is reading from", key, t.name, n)
+								}
 							} else {
 								gone = append(gone, n)
 							}
